@@ -494,6 +494,9 @@ func (x *Exec) run() {
 	for obj, v := range x.entry.vars {
 		if _, isParam := obj.(*types.Var); isParam {
 			if _, clash := names[obj.Name()]; !clash && x.isParam(obj) {
+				if _, isPtr := obj.Type().Underlying().(*types.Pointer); isPtr {
+					continue // a pointer parameter denotes its pointee's final state in postconditions; old(p.f) is the entry value
+				}
 				names[obj.Name()] = v
 			}
 		}
@@ -730,4 +733,42 @@ func (g *Global) verifyLemma(l *Lemma) *FuncResult {
 	x.obligs = append(x.obligs, &Obligation{Name: key, Kind: "lemma", Where: l.Where, Human: l.Expr.Text, PC: "true", Goal: t, NAssume: len(c.assumes), Ctx: c, Fn: key})
 	res.Obligations = x.obligs
 	return res
+}
+
+
+// errVarInitNonNil: the package-level variable is declared with an errors.New / fmt.Errorf initialiser and is never assigned.
+func (g *Global) errVarInitNonNil(v *types.Var) bool {
+	for _, p := range g.pkgs {
+		if p.Types != v.Pkg() {
+			continue
+		}
+		initOK := false
+		assigned := false
+		for _, f := range p.Syntax {
+			ast.Inspect(f, func(n ast.Node) bool {
+				switch nd := n.(type) {
+				case *ast.ValueSpec:
+					for i, id := range nd.Names {
+						if p.TypesInfo.Defs[id] == v && i < len(nd.Values) {
+							if ce, ok := nd.Values[i].(*ast.CallExpr); ok {
+								name := exprString(ce.Fun)
+								if name == "errors.New" || name == "fmt.Errorf" {
+									initOK = true
+								}
+							}
+						}
+					}
+				case *ast.AssignStmt:
+					for _, l := range nd.Lhs {
+						if id, ok := l.(*ast.Ident); ok && p.TypesInfo.Uses[id] == v {
+							assigned = true
+						}
+					}
+				}
+				return true
+			})
+		}
+		return initOK && !assigned
+	}
+	return false
 }
